@@ -8,13 +8,22 @@ Reading.  A run of an operator is `op … rs (gs) = .ok (…)` where `rs` / `gs`
 every seed.  `*_runs` show that a tape that is long enough always gives a run (no vacuity).
 "Well-defined" = every `/` and `**` of the source is applied inside its real domain (divisor ≠ 0,
 base of a real power ≥ 0, base > 0 under a negative exponent): over `ℝ` this is what "finite real
-genes, never NaN or complex" means.  The level is *partial*: IEEE rounding, overflow, underflow and
-NaN propagation are not exhibited by a model over `ℝ`; the harness searches for them.
+genes, never NaN or complex" means.
+
+Two further semantics of the same model definitions carry the float side (sections "the rounded semantics" and
+"the sum clause under the standard model" below): `XFA A` — finite rational | +inf | -inf | nan under ANY lawful
+rounded arithmetic `A` (`Core/RoundedOps.lean`) — for the clamp and the NaN analysis of the two bounded
+operators, and `FlNum M` — reals with `fl(a op b) = (a op b)(1 + d)` (`Lemmas/C10Fl.lean`) — for the sum clause.
+The level stays *partial*: that CPython's doubles and libm's `pow` satisfy the laws of these semantics is trusted
+(and probed by the harness), the ES mutations and the blend range clause have no rounded theorem.
 -/
 import DeapModel.Core.RealOps
 import DeapModel.RealInst
 import DeapModel.Lemmas.C10Lists
 import DeapModel.Lemmas.C10Real
+import DeapModel.Core.RoundedOps
+import DeapModel.Lemmas.C10Rounded
+import DeapModel.Lemmas.C10Fl
 import Mathlib.Analysis.SpecialFunctions.Pow.Real
 import Mathlib.Tactic.Linarith
 import Mathlib.Tactic.NormNum
@@ -490,6 +499,274 @@ example : (0 : ℝ) ≤ 20 ∧ UnitDraws [1 / 4, 1 / 2, 3 / 4, 1 / 4] ∧
     simp only [Bound.get?] at hl hu
     obtain rfl := Option.some.inj hl; obtain rfl := Option.some.inj hu
     rcases i with _ | _ | i <;> simp at hx <;> (obtain rfl := hx; norm_num)
+
+
+/-! ## the rounded semantics: what survives rounding, overflow and `nan`
+
+`Core/RoundedOps.lean`: the same model definitions run on `XFA A` = finite rational | `+inf` | `-inf` | `nan`
+under ANY arithmetic `A` that is `Lawful` (rounding monotone, exact on representable results, `nan` only for the
+IEEE invalid operations; `nan` also stands for "Python raises").  `FinIn v lo hi` = "`v` is a finite number in
+`[lo, hi]`". -/
+
+open RoundedOps in
+/-- a lawful arithmetic exists (a fixed-point format with steps of `2^-60` that rounds downwards and overflows to
+the infinities beyond `2^60`): the hypothesis `A.Lawful` of the theorems below is satisfiable -/
+theorem lawful_exists : ∃ A : Arith, A.Lawful := ⟨toy, toy_lawful⟩
+
+open RoundedOps in
+/-- The final clamp `min(max(c, xl), xu)` as Python evaluates it, with finite `xl ≤ xu`: every `c` that is not
+`nan` — finite or infinite, whatever rounding produced it — comes out as a finite number inside `[xl, xu]`. -/
+theorem clamp_in_bounds (A : Arith) (c : XFA A) (xl xu : Rat) (h : xl ≤ xu) (hc : c.val ≠ .nan) :
+    FinIn (clamp c ⟨.fin xl⟩ ⟨.fin xu⟩).val xl xu := by
+  rw [xf_clamp]; exact clamp_in h hc
+
+example : (0 : Rat) ≤ 1 ∧ RoundedOps.XF.pinf ≠ RoundedOps.XF.nan := ⟨by norm_num, by simp⟩
+
+open RoundedOps in
+/-- The clamp does NOT sanitise `nan`: `min(max(nan, xl), xu)` is `nan`, whatever the bounds. -/
+theorem clamp_nan (A : Arith) (xl xu : XFA A) : (clamp (⟨.nan⟩ : XFA A) xl xu).val = .nan := by
+  rw [xf_clamp]; exact clamp_nan' _ _
+
+open RoundedOps in
+/-- Hence, for floats, the in-bounds clause of the property is *exactly* NaN-freedom of the value before the clamp. -/
+theorem clamp_in_bounds_iff (A : Arith) (c : XFA A) (xl xu : Rat) (h : xl ≤ xu) :
+    FinIn (clamp c ⟨.fin xl⟩ ⟨.fin xu⟩).val xl xu ↔ c.val ≠ .nan := by
+  constructor
+  · intro hf hc
+    obtain ⟨v, rfl⟩ : ∃ v, c = ⟨v⟩ := ⟨c.val, rfl⟩
+    simp only at hc
+    subst hc
+    rw [clamp_nan] at hf
+    exact hf.ne_nan rfl
+  · exact clamp_in_bounds A c xl xu h
+
+example : (0 : Rat) ≤ 1 := by norm_num
+
+open RoundedOps in
+/-- One locus of `cxSimulatedBinaryBounded` (:324-357) in ANY lawful arithmetic: `eta ≥ 0` with `eta + 1` finite,
+finite parents inside finite bounds whose width `xu - xl` and whose sum `x1 + x2` are finite (`sbxbMag`), draws in
+`[0, top]`: whatever the gate, the guard `abs(x1 - x2) > 1e-14` and the swap decide, no `inf - inf`, `0 * inf`,
+`0 / 0`, `inf / inf`, zero divisor, negative base or overflowing power arises, and both genes that come out are
+finite numbers inside `[xl, xu]`. -/
+theorem sbxb_rounded_locus (A : Arith) (hA : A.Lawful) (eta x1 x2 xl xu : Rat) (rs rest : List (XFA A))
+    (y1 y2 : XFA A) (hm : sbxbMag A.toMag eta x1 x2 xl xu = true) (hr : DrawsTop A rs)
+    (hrun : sbxbGene (⟨.fin eta⟩ : XFA A) ⟨.fin x1⟩ ⟨.fin x2⟩ ⟨.fin xl⟩ ⟨.fin xu⟩ rs = some (y1, y2, rest)) :
+    FinIn y1.val xl xu ∧ FinIn y2.val xl xu :=
+  sbxbGene_rounded hA hm hr hrun
+
+open RoundedOps in
+example : toy.Lawful ∧ sbxbMag toy.toMag 20 0 1 0 1 = true ∧
+    DrawsTop toy [⟨.fin (1 / 4)⟩, ⟨.fin (1 - 1 / 2 ^ 53)⟩, ⟨.fin 0⟩] ∧
+    ∃ out, sbxbGene (⟨.fin 20⟩ : XFA toy) ⟨.fin 0⟩ ⟨.fin 1⟩ ⟨.fin 0⟩ ⟨.fin 1⟩
+      [⟨.fin (1 / 4)⟩, ⟨.fin (1 - 1 / 2 ^ 53)⟩, ⟨.fin 0⟩] = some out := by
+  refine ⟨toy_lawful, by norm_num [sbxbMag, toy], ?_, ?_⟩
+  · intro r hr
+    simp only [List.mem_cons, List.not_mem_nil, or_false] at hr
+    rcases hr with rfl | rfl | rfl
+    · exact ⟨_, rfl, by norm_num, by norm_num [toy]⟩
+    · exact ⟨_, rfl, by norm_num, by norm_num [toy]⟩
+    · exact ⟨_, rfl, by norm_num, by norm_num [toy]⟩
+  · obtain ⟨a, b, c, h, _⟩ := sbxbGene_total (⟨.fin 20⟩ : XFA toy) ⟨.fin 0⟩ ⟨.fin 1⟩ ⟨.fin 0⟩ ⟨.fin 1⟩
+      [⟨.fin (1 / 4)⟩, ⟨.fin (1 - 1 / 2 ^ 53)⟩, ⟨.fin 0⟩] (by simp)
+    exact ⟨_, h⟩
+
+/- the decidable hypotheses at the magnitudes of IEEE-754 binary64 (`RoundedOps.binary64`): the statement's domain
+(and far beyond: eta = 1e6, bounds up to 8.9e307) satisfies them; `low = -1e308, up = 1e308` fails `width`, and
+`low = 0, up = 1.7e308` with parents `8.5e307, 1.7e308` fails `sum` — the two classes of inputs on which the real code
+returns `nan` genes (harness stream `xmag`). -/
+set_option exponentiation.threshold 2000 in
+open RoundedOps in
+example : sbxbMag binary64 1000 0 1 0 1 = true ∧ sbxbMag binary64 1000000 (-10 ^ 6) (10 ^ 6) (-10 ^ 6) (10 ^ 6) = true ∧
+    sbxbMag binary64 0 (-10 ^ 308) (10 ^ 308) (-10 ^ 308) (10 ^ 308) = false ∧
+    sbxbMag binary64 0 (85 * 10 ^ 306) (17 * 10 ^ 307) 0 (17 * 10 ^ 307) = false ∧
+    polyMag binary64 1000000 (1 / 2) 0 1 = true ∧ polyMag binary64 20 (-10 ^ 308) (-10 ^ 308) (10 ^ 308) = false := by
+  refine ⟨?_, ?_, ?_, ?_, ?_, ?_⟩ <;> norm_num [sbxbMag, polyMag, binary64]
+
+
+open RoundedOps in
+/-- `cxSimulatedBinaryBounded` on whole individuals in ANY lawful arithmetic: if at every locus the two parents
+and the bound pair are finite and satisfy `sbxbMag` (inside the bounds, width and sum finite) and the draws lie in
+`[0, top]`, then at every locus both children are finite numbers inside the bounds of that locus — for floats
+too, not only over the reals. -/
+theorem sbxb_rounded (A : Arith) (hA : A.Lawful) (ind1 ind2 : Ind (XFA A)) (eta : Rat) (low up : Bound (XFA A))
+    (rs : List (XFA A)) (o1 o2 : Ind (XFA A)) (rest : List (XFA A))
+    (hmag : ∀ (i : Nat) x1 x2 l u, ind1.genes[i]? = some x1 → ind2.genes[i]? = some x2 → low.get? i = some l →
+      up.get? i = some u → ∃ p q ql qu : Rat, x1 = ⟨.fin p⟩ ∧ x2 = ⟨.fin q⟩ ∧ l = ⟨.fin ql⟩ ∧ u = ⟨.fin qu⟩ ∧
+        sbxbMag A.toMag eta p q ql qu = true)
+    (hr : DrawsTop A rs)
+    (hrun : cxSimulatedBinaryBounded ind1 ind2 ⟨.fin eta⟩ low up rs = .ok (o1, o2, rest)) :
+    ∀ (i : Nat) y1 y2 l u, o1.genes[i]? = some y1 → o2.genes[i]? = some y2 → low.get? i = some l →
+      up.get? i = some u → ∃ ql qu : Rat, l = ⟨.fin ql⟩ ∧ u = ⟨.fin qu⟩ ∧ FinIn y1.val ql qu ∧ FinIn y2.val ql qu := by
+  obtain ⟨lo, hi, c1, c2, hlo, hhi, hl, rfl, rfl⟩ := cxSBXB_ok hrun
+  obtain ⟨l1, l2, h3, h4, h5⟩ := cxSBXBLoop_spec _ _ _ _ _ _ _ _ _ hl
+  intro i y1 y2 l u hc1 hc2 hlg hug
+  have hc1' : c1[i]? = some y1 := hc1
+  have hc2' : c2[i]? = some y2 := hc2
+  have i1 : i < ind1.genes.length := by
+    have := (List.getElem?_eq_some_iff.1 hc1').1; omega
+  have i2 : i < ind2.genes.length := by
+    have := (List.getElem?_eq_some_iff.1 hc2').1; omega
+  have hsz : i < min ind1.genes.length ind2.genes.length := by omega
+  have e1 : lo[i]? = some l := by rw [expand_get hlo hsz]; exact hlg
+  have e2 : hi[i]? = some u := by rw [expand_get hhi hsz]; exact hug
+  obtain ⟨x1, hx1⟩ : ∃ x, ind1.genes[i]? = some x := ⟨_, List.getElem?_eq_getElem i1⟩
+  obtain ⟨x2, hx2⟩ : ∃ x, ind2.genes[i]? = some x := ⟨_, List.getElem?_eq_getElem i2⟩
+  obtain ⟨rs', rest', hsub, hg⟩ := h3 i x1 x2 l u y1 y2 hx1 hx2 e1 e2 hc1' hc2'
+  obtain ⟨p, q, ql, qu, rfl, rfl, rfl, rfl, hm⟩ := hmag i x1 x2 l u hx1 hx2 hlg hug
+  exact ⟨ql, qu, rfl, rfl, sbxbGene_rounded hA hm (fun r hr' => hr r (hsub r hr')) hg⟩
+
+open RoundedOps in
+example : toy.Lawful ∧ sbxbMag toy.toMag 20 0 1 0 1 = true ∧ sbxbMag toy.toMag 20 (1 / 2) (1 / 2) 0 1 = true ∧
+    DrawsTop toy [⟨.fin (1 / 4)⟩, ⟨.fin (1 - 1 / 2 ^ 53)⟩, ⟨.fin 0⟩] := by
+  refine ⟨toy_lawful, by norm_num [sbxbMag, toy], by norm_num [sbxbMag, toy], ?_⟩
+  intro r hr
+  simp only [List.mem_cons, List.not_mem_nil, or_false] at hr
+  rcases hr with rfl | rfl | rfl
+  · exact ⟨_, rfl, by norm_num, by norm_num [toy]⟩
+  · exact ⟨_, rfl, by norm_num, by norm_num [toy]⟩
+  · exact ⟨_, rfl, by norm_num, by norm_num [toy]⟩
+
+open RoundedOps in
+/-- One mutated locus of `mutPolynomialBounded` (:77-93) in ANY lawful arithmetic: `eta ≥ 0` with `eta + 1`
+finite, a finite gene inside finite bounds whose width `xu - xl` is finite and at least the guard `1e-14`
+(`polyMag`), the draw in `[0, 1)`: every `/` and `**` is defined (`delta_1, delta_2 ∈ [0, 1]`, `val ∈ [0, 2]`), the
+value before the clamp is not `nan`, and the gene that comes out is a finite number inside `[xl, xu]`. -/
+theorem poly_rounded_locus (A : Arith) (hA : A.Lawful) (eta x xl xu rand : Rat)
+    (hm : polyMag A.toMag eta x xl xu = true) (h0 : 0 ≤ rand) (h1 : rand < 1) :
+    FinIn (polyGene (⟨.fin eta⟩ : XFA A) ⟨.fin x⟩ ⟨.fin xl⟩ ⟨.fin xu⟩ ⟨.fin rand⟩).val xl xu :=
+  polyGene_rounded hA hm h0 h1
+
+open RoundedOps in
+example : toy.Lawful ∧ polyMag toy.toMag 20 0 0 1 = true ∧ (0 : Rat) ≤ 3 / 4 ∧ (3 / 4 : Rat) < 1 :=
+  ⟨toy_lawful, by norm_num [polyMag, toy], by norm_num, by norm_num⟩
+
+open RoundedOps in
+/-- `mutPolynomialBounded` on a whole individual in ANY lawful arithmetic: if at every locus the gene and the bound
+pair are finite and satisfy `polyMag` and the draws lie in `[0, 1)`, every gene that comes out is a finite number
+inside the bounds of its locus, for every `indpb`. -/
+theorem poly_rounded (A : Arith) (hA : A.Lawful) (ind : Ind (XFA A)) (eta : Rat) (low up : Bound (XFA A))
+    (indpb : XFA A) (rs : List (XFA A)) (o : Ind (XFA A)) (rest : List (XFA A))
+    (hmag : ∀ (i : Nat) x l u, ind.genes[i]? = some x → low.get? i = some l → up.get? i = some u →
+      ∃ p ql qu : Rat, x = ⟨.fin p⟩ ∧ l = ⟨.fin ql⟩ ∧ u = ⟨.fin qu⟩ ∧ polyMag A.toMag eta p ql qu = true)
+    (hr : DrawsUnit A rs)
+    (hrun : mutPolynomialBounded ind ⟨.fin eta⟩ low up indpb rs = .ok (o, rest)) :
+    ∀ (i : Nat) y l u, o.genes[i]? = some y → low.get? i = some l → up.get? i = some u →
+      ∃ ql qu : Rat, l = ⟨.fin ql⟩ ∧ u = ⟨.fin qu⟩ ∧ FinIn y.val ql qu := by
+  obtain ⟨lo, hi, ys, hlo, hhi, hl, rfl⟩ := mutPoly_ok hrun
+  obtain ⟨l1, h2, h3⟩ := polyLoop_spec _ _ _ _ _ _ _ _ hl
+  intro i y l u hy hlg hug
+  have hi' : i < ind.genes.length := by
+    have := (List.getElem?_eq_some_iff.1 hy).1; simp at this; omega
+  have e1 : lo[i]? = some l := by rw [expand_get hlo hi']; exact hlg
+  have e2 : hi[i]? = some u := by rw [expand_get hhi hi']; exact hug
+  obtain ⟨x, hx⟩ : ∃ x, ind.genes[i]? = some x := ⟨_, List.getElem?_eq_getElem hi'⟩
+  obtain ⟨p, ql, qu, rfl, rfl, rfl, hm⟩ := hmag i x l u hx hlg hug
+  refine ⟨ql, qu, rfl, rfl, ?_⟩
+  rcases h2 i _ _ _ y hx e1 e2 hy with rfl | ⟨rand, hmem, rfl⟩
+  · obtain ⟨_, hbox, _⟩ := polyMag_iff.1 hm
+    exact ⟨p, rfl, hbox.1, hbox.2⟩
+  · obtain ⟨t, rfl, t0, t1⟩ := hr rand hmem
+    exact polyGene_rounded hA hm t0 t1
+
+open RoundedOps in
+example : toy.Lawful ∧ polyMag toy.toMag 20 0 0 1 = true ∧ DrawsUnit toy [⟨.fin (1 / 4)⟩, ⟨.fin (3 / 4)⟩] := by
+  refine ⟨toy_lawful, by norm_num [polyMag, toy], ?_⟩
+  intro r hr
+  simp only [List.mem_cons, List.not_mem_nil, or_false] at hr
+  rcases hr with rfl | rfl
+  · exact ⟨_, rfl, by norm_num, by norm_num⟩
+  · exact ⟨_, rfl, by norm_num, by norm_num⟩
+
+open RoundedOps in
+/-- The magnitude hypothesis is needed: when the width `xu - xl` of the bounds overflows to `+inf` (binary64:
+`xl = -1e308`, `xu = 1e308`), `mutPolynomialBounded` turns a gene on the lower bound into `nan` for the draw
+`rand = 0` (`delta_q = 0`, `x + 0 * inf`), for every `eta ≥ 0` — and the clamp keeps the `nan`. -/
+theorem poly_width_overflow_nan (A : Arith) (hA : A.Lawful) (eta xl xu : Rat) (he : 0 ≤ eta)
+    (hov : A.rnd (xu - xl) = .pinf) :
+    (polyGene (⟨.fin eta⟩ : XFA A) ⟨.fin xl⟩ ⟨.fin xl⟩ ⟨.fin xu⟩ ⟨.fin 0⟩).val = .nan :=
+  polyGene_width_overflow hA he hov
+
+open RoundedOps in
+example : toy.Lawful ∧ (0 : Rat) ≤ 20 ∧ toy.rnd (2 ^ 60 - (-2 ^ 60)) = .pinf :=
+  ⟨toy_lawful, by norm_num, by show toyRnd _ = _; norm_num [toyRnd]⟩
+
+open RoundedOps in
+/-- Likewise bounded SBX: parents on the two bounds of a pair whose width overflows, `eta = 0`, `rand = 0`:
+`beta_q = 0` and `beta_q * (x2 - x1) = 0 * inf` — both children are `nan` after the clamp. -/
+theorem sbxb_width_overflow_nan (A : Arith) (hA : A.Lawful) (xl xu : Rat) (hov : A.rnd (xu - xl) = .pinf) :
+    (sbxbChildren (⟨.fin 0⟩ : XFA A) ⟨.fin xl⟩ ⟨.fin xu⟩ ⟨.fin xl⟩ ⟨.fin xu⟩ ⟨.fin 0⟩).1.val = .nan ∧
+    (sbxbChildren (⟨.fin 0⟩ : XFA A) ⟨.fin xl⟩ ⟨.fin xu⟩ ⟨.fin xl⟩ ⟨.fin xu⟩ ⟨.fin 0⟩).2.val = .nan :=
+  sbxbChildren_width_overflow hA hov
+
+open RoundedOps in
+example : toy.Lawful ∧ toy.rnd (2 ^ 60 - (-2 ^ 60)) = .pinf :=
+  ⟨toy_lawful, by show toyRnd _ = _; norm_num [toyRnd]⟩
+
+
+/-! ## the sum clause under the standard model of floating-point arithmetic
+
+`FlModel` (`Lemmas/C10Fl.lean`): `fl(a op b) = (a op b)(1 + d)`, `|d| ≤ u`, a product additionally `+ e`, `|e| ≤ nu`
+(underflow); binary64: `u = 2^-53`, `nu = 2^-1075`.  `FlNum M` runs the model definitions with these operations. -/
+
+/-- `cxBlend` in floating-point arithmetic: at every locus the sum of the two children differs from the sum of the
+two parents by at most `6 u (|x1| + |x2|) (1 + |gamma|) + 5 nu`, where `gamma` is the value
+`(1. + 2. * alpha) * random.random() - alpha` the code computed from one draw `r` of the tape. -/
+theorem blend_sum_rounded (M : FlModel) (hu : M.u ≤ 1 / 8) (ind1 ind2 : Ind (FlNum M)) (alpha : FlNum M)
+    (rs : List (FlNum M)) (o1 o2 : Ind (FlNum M)) (rest : List (FlNum M))
+    (hrun : cxBlend ind1 ind2 alpha rs = .ok (o1, o2, rest)) :
+    ∀ (i : Nat) x1 x2 y1 y2, ind1.genes[i]? = some x1 → ind2.genes[i]? = some x2 →
+      o1.genes[i]? = some y1 → o2.genes[i]? = some y2 →
+      ∃ r ∈ rs, |(y1.val + y2.val) - (x1.val + x2.val)|
+        ≤ 6 * M.u * (|x1.val| + |x2.val|) * (1 + |(blendGamma alpha r).val|) + 5 * M.nu := by
+  obtain ⟨c1, c2, hl, rfl, rfl⟩ := cxBlend_ok hrun
+  obtain ⟨_, _, h3, _, _⟩ := pairLoop_spec _ _ _ _ _ _ _ hl
+  intro i x1 x2 y1 y2 ha hb hc hd
+  obtain ⟨r, hr, rfl, rfl⟩ := h3 i x1 x2 y1 y2 ha hb hc hd
+  exact ⟨r, hr, blendPair_sum_fl M hu alpha x1 x2 r⟩
+
+example : infl64.u ≤ 1 / 8 ∧ ∃ out, cxBlend (⟨1, [⟨0⟩, ⟨1⟩], 0, []⟩ : Ind (FlNum infl64)) ⟨2, [⟨2⟩, ⟨4⟩], 0, []⟩
+    ⟨1 / 2⟩ [⟨1 / 2⟩, ⟨0⟩] = .ok out := by
+  refine ⟨infl64_u, ?_⟩
+  obtain ⟨⟨c1, c2, rest⟩, ho⟩ := pairLoop_total (blendPair (⟨1 / 2⟩ : FlNum infl64)) [⟨0⟩, ⟨1⟩] [⟨2⟩, ⟨4⟩]
+    [⟨1 / 2⟩, ⟨0⟩] (by simp)
+  exact ⟨_, by simp only [cxBlend, ho]; rfl⟩
+
+/-- `cxESBlend` in floating-point arithmetic: the same bound at every locus, for the genes and for the strategies. -/
+theorem esblend_sum_rounded (M : FlModel) (hu : M.u ≤ 1 / 8) (ind1 ind2 : Ind (FlNum M)) (alpha : FlNum M)
+    (rs : List (FlNum M)) (o1 o2 : Ind (FlNum M)) (rest : List (FlNum M))
+    (hrun : cxESBlend ind1 ind2 alpha rs = .ok (o1, o2, rest)) :
+    ∀ (i : Nat) x1 s1 x2 s2 y1 u1 y2 u2, ind1.genes[i]? = some x1 → ind1.strategy[i]? = some s1 →
+      ind2.genes[i]? = some x2 → ind2.strategy[i]? = some s2 →
+      o1.genes[i]? = some y1 → o1.strategy[i]? = some u1 → o2.genes[i]? = some y2 → o2.strategy[i]? = some u2 →
+      (∃ r ∈ rs, |(y1.val + y2.val) - (x1.val + x2.val)|
+        ≤ 6 * M.u * (|x1.val| + |x2.val|) * (1 + |(blendGamma alpha r).val|) + 5 * M.nu) ∧
+      (∃ q ∈ rs, |(u1.val + u2.val) - (s1.val + s2.val)|
+        ≤ 6 * M.u * (|s1.val| + |s2.val|) * (1 + |(blendGamma alpha q).val|) + 5 * M.nu) := by
+  obtain ⟨c1, t1, c2, t2, hl, rfl, rfl⟩ := cxESBlend_ok hrun
+  obtain ⟨_, h2⟩ := cxESBlendLoop_spec _ _ _ _ _ _ _ _ _ _ _ hl
+  intro i x1 s1 x2 s2 y1 u1 y2 u2 a1 a2 a3 a4 a5 a6 a7 a8
+  obtain ⟨r, hr, q, hq, rfl, rfl, rfl, rfl⟩ := h2 i x1 s1 x2 s2 y1 u1 y2 u2 a1 a2 a3 a4 a5 a6 a7 a8
+  exact ⟨⟨r, hr, blendPair_sum_fl M hu alpha x1 x2 r⟩, ⟨q, hq, blendPair_sum_fl M hu alpha s1 s2 q⟩⟩
+
+example : infl64.u ≤ 1 / 8 := infl64_u
+
+/-- `cxSimulatedBinary` in floating-point arithmetic: at every locus the sum of the two children differs from the
+sum of the two parents by at most `5 u (|x1| + |x2|) (1 + |beta|) + 5 nu`, where `beta` is the spread factor the
+code computed from one draw `r` of the tape. -/
+theorem sbx_sum_rounded (M : FlModel) (hu : M.u ≤ 1 / 8) (ind1 ind2 : Ind (FlNum M)) (eta : FlNum M)
+    (rs : List (FlNum M)) (o1 o2 : Ind (FlNum M)) (rest : List (FlNum M))
+    (hrun : cxSimulatedBinary ind1 ind2 eta rs = .ok (o1, o2, rest)) :
+    ∀ (i : Nat) x1 x2 y1 y2, ind1.genes[i]? = some x1 → ind2.genes[i]? = some x2 →
+      o1.genes[i]? = some y1 → o2.genes[i]? = some y2 →
+      ∃ r ∈ rs, |(y1.val + y2.val) - (x1.val + x2.val)|
+        ≤ 5 * M.u * (|x1.val| + |x2.val|) * (1 + |(sbxBeta eta r).val|) + 5 * M.nu := by
+  obtain ⟨c1, c2, hl, rfl, rfl⟩ := cxSimulatedBinary_ok hrun
+  obtain ⟨_, _, h3, _, _⟩ := pairLoop_spec _ _ _ _ _ _ _ hl
+  intro i x1 x2 y1 y2 ha hb hc hd
+  obtain ⟨r, hr, rfl, rfl⟩ := h3 i x1 x2 y1 y2 ha hb hc hd
+  exact ⟨r, hr, sbxPair_sum_fl M hu eta x1 x2 r⟩
+
+example : infl64.u ≤ 1 / 8 := infl64_u
 
 /-! ## Gaussian mutation -/
 
